@@ -166,6 +166,11 @@ fn corpus() -> Vec<(Program, Edb, &'static str)> {
 
 /// replace the query clause by an aggregation over the same body
 fn add_agg_query(r: &mut Rng, p: &mut Program) {
+    // one aggregate rule for the query relation
+    while p.clauses.iter().filter(|c| c.head == 99).count() > 1 {
+        let k = p.clauses.iter().position(|c| c.head == 99).unwrap();
+        p.clauses.remove(k);
+    }
     let q = p.clauses.last_mut().unwrap();
     let mut vars: Vec<u32> = vec![];
     for l in &q.body {
@@ -277,7 +282,8 @@ fn run_handler(rt: &tokio::runtime::Runtime, p: &Program, edb: &Edb) -> Option<R
         }
     }
     for c in &p.clauses {
-        let r = rt.block_on(handler.query_program(kg.clone(), format!("+{}", c.iql())));
+        // the handler names its own query rule __query__: register ours under another name
+        let r = rt.block_on(handler.query_program(kg.clone(), format!("+{}", c.iql().replace("__query__", "qq"))));
         match r {
             Ok(qr) => {
                 let m = format!("{:?}", qr.rows);
@@ -290,7 +296,7 @@ fn run_handler(rt: &tokio::runtime::Runtime, p: &Program, edb: &Edb) -> Option<R
     }
     let q = p.clauses.last().unwrap();
     let vars: Vec<String> = (0..q.args.len()).map(|i| format!("V{}", i)).collect();
-    let r = rt.block_on(handler.query_program(kg.clone(), format!("?{}({})", rel_name(q.head), vars.join(", "))));
+    let r = rt.block_on(handler.query_program(kg.clone(), format!("?{}({})", rel_name(q.head).replace("__query__", "qq"), vars.join(", "))));
     Some(match r {
         Ok(qr) => Ok(qr
             .rows
@@ -330,6 +336,17 @@ fn main() {
                 corpus().into_iter().map(|(p, e, tag)| (p, e, vec!["corpus", tag])).collect();
             let gcfg = GenCfg::default();
             while cases.len() < args.n {
+                match rng.below(10) {
+                    0 => {
+                        cases.push(gen_bound_rec_family(&mut rng));
+                        continue;
+                    }
+                    1 => {
+                        cases.push(gen_shared_family(&mut rng));
+                        continue;
+                    }
+                    _ => {}
+                }
                 let (p, tags) = gen_program(&mut rng, &gcfg);
                 let nedb = rng.range(1, 2);
                 for _ in 0..nedb {
@@ -477,11 +494,14 @@ fn main() {
                 let cfg_bits = if rng.chance(1, 2) { 0 } else { 31 };
                 let base = run_engine(&p.iql(), &edb, cfg_bits, 1, 0);
                 let mut variants: Vec<(Program, &'static str)> = vec![];
-                let nq = p.clauses.len() - 1;
+                // the query rules stay at the end (the convention every submission path follows)
+                let nq = p.clauses.iter().position(|c| c.head == 99).unwrap();
                 for _ in 0..3 {
                     let mut cs = p.clauses[..nq].to_vec();
                     rng.shuffle(&mut cs);
-                    cs.push(p.clauses[nq].clone());
+                    let mut qs = p.clauses[nq..].to_vec();
+                    rng.shuffle(&mut qs);
+                    cs.extend(qs);
                     variants.push((Program { clauses: cs }, "permuted"));
                 }
                 {
@@ -492,7 +512,7 @@ fn main() {
                         let pos = rng.below(cs.len() as u64 + 1) as usize;
                         cs.insert(pos, c);
                     }
-                    cs.push(p.clauses[nq].clone());
+                    cs.extend(p.clauses[nq..].iter().cloned());
                     cs.push(p.clauses[nq].clone());
                     variants.push((Program { clauses: cs }, "duplicated-clause"));
                 }
@@ -561,6 +581,10 @@ fn main() {
             while cases.len() < args.n {
                 if !is06 && rng.chance(1, 4) {
                     cases.push(gen_shared_family(&mut rng));
+                    continue;
+                }
+                if !is06 && rng.chance(1, 4) {
+                    cases.push(gen_bound_rec_family(&mut rng));
                     continue;
                 }
                 let gcfg = GenCfg { allow_mutual: false, allow_strings: !is06, ..GenCfg::default() };
